@@ -135,3 +135,42 @@ Theorem C01_empty_file : forall compress decompress c,
      collect (rev_prefix_next step p) fuel iter_new = Done []).
 Proof. exact empty_file_reads_empty. Qed.
 Print Assumptions C01_empty_file.
+
+(* ================= the hypotheses are satisfiable: codec None =================
+   compress_none / decompress_none (the identity for codec id 0) satisfy both codec hypotheses, so
+   C01_roundtrip_total applies outright to every configuration with codec None *)
+Lemma C01_codec_none_ok : forall c, wc_codec c = 0 ->
+  (forall b z, compress_none (wc_codec c) (wc_level c) b = Done z -> decompress_none (wc_codec c) z = Done b) /\
+  (forall b, exists z, compress_none (wc_codec c) (wc_level c) b = Done z).
+Proof.
+  intros c Hc. unfold compress_none, decompress_none. rewrite Hc. cbn. split; [intros b z H; injection H as <-; reflexivity|].
+  intro b. exists b. reflexivity.
+Qed.
+
+Example C01_total_applies :
+  let c := mk_wcfg 0 0 1 1 2 in
+  let es := [([], [1]); ([0], []); ([0; 255], [2; 3]); ([1], [4]); ([1; 0], [5])] in
+  exists s lg m,
+    w_run_gen vsink vs_wr vs_fl vs_count compress_none c vs_empty es = (len es, Done (s, lg, m)) /\
+    exists st rs, run_ops (load_block decompress_none (vs_bytes s) (m_codec m)) (m_root m) (m_levels m) cs_fresh
+                          (repeat ONext (S (length es))) = Done (st, rs) /\ rs = map Some es ++ [None].
+Proof.
+  cbv zeta. set (c := mk_wcfg 0 0 1 1 2). set (es := [([], [1]); ([0], []); ([0; 255], [2; 3]); ([1], [4]); ([1; 0], [5])]).
+  destruct (C01_codec_none_ok c eq_refl) as [H1 H2].
+  destruct (C01_roundtrip_total compress_none decompress_none c H1 H2 es) as (s & lg & m & Hrun & Hread).
+  - reflexivity.
+  - cbv. discriminate.
+  - cbv. discriminate.
+  - discriminate.
+  - reflexivity.
+  - repeat constructor; cbv; discriminate.
+  - cbv. discriminate.
+  - exists s, lg, m. split; [exact Hrun|].
+    (* the physical bounds hold for the file this run produces *)
+    assert (Hc : w_run_gen vsink vs_wr vs_fl vs_count compress_none c vs_empty es = (len es, Done (s, lg, m))) by exact Hrun.
+    vm_compute in Hc. injection Hc as <- <- <-.
+    destruct Hread as (_ & _ & _ & F & _).
+    + vm_compute. reflexivity.
+    + intros e He. vm_compute in He. repeat (destruct He as [<-|He]; [vm_compute; reflexivity|]). destruct He.
+    + exact F.
+Qed.
